@@ -411,7 +411,10 @@ impl World {
     pub fn fs_event(&self, ent: usize, op: FsOp) {
         let mut g = self.inner.lock().unwrap();
         self.push(&mut g, EvKind::Fs { ent, op });
-        self.sample(&mut g, ent);
+        // no sample here: a filestore call is made from inside a synchronous step of a transaction
+        // (e.g. between truncating the destination and copying the staged file into it), which no
+        // user of this single-threaded daemon can observe; samples are taken at indications and
+        // whenever the entity hands a PDU to the link
     }
     pub fn fs_fault(&self, ent: usize, op: &str) -> bool {
         let mut g = self.inner.lock().unwrap();
@@ -683,7 +686,9 @@ impl World {
                 self.push(g, EvKind::Blackout { src, dst, on });
             }
             Action::User { ent, op, put } => {
-                let id = g.puts[put].predicted;
+                // a put index of RAW_TXN + n addresses the transaction (entity 0, sequence number n)
+                // of a scripted sender, which has no Put behind it
+                let id = if put >= crate::scenario::RAW_TXN { (self.entity_value(0), (put - crate::scenario::RAW_TXN) as u64) } else { g.puts[put].predicted };
                 let tid = TransactionID(make_id(self.sc.idw, id.0), make_id(self.sc.idw, id.1));
                 let prim = match op {
                     UserOp::Cancel => {
